@@ -228,6 +228,8 @@ def whole_run_cases(rng, n, modes, workdir, oc, label="whole-run"):
             except Exception:
                 continue
             kd = rng.choice(C08.KINDS)
+            if kd == "size_small":
+                P.ignore_size = True        # else the size test skips the file whose entry now records a smaller size
             new = data[:s] + C08.damage_entry(rng, data[s:e], f, s, kd) + data[e:]
             first = sorted(tree)[0]
             if tree[first]:
@@ -254,7 +256,9 @@ def whole_run_cases(rng, n, modes, workdir, oc, label="whole-run"):
             for p in list(tree):
                 r = rng.random()
                 if r < 0.3:
-                    dmg[p] = tree[p] + bytes(rng.randrange(256) for _ in range(rng.randint(1, 40)))
+                    # a few bytes more, or several times the recorded size (the stage rate must not be extrapolated beyond the recorded end)
+                    extra = rng.randint(1, 40) if rng.random() < 0.5 else (len(tree[p]) + 1) * rng.randint(1, 4)
+                    dmg[p] = tree[p] + bytes(rng.randrange(256) for _ in range(extra))
                 elif r < 0.6 and tree[p]:
                     dmg[p] = tree[p][:rng.randrange(len(tree[p]))]
                 elif r < 0.7:
@@ -275,6 +279,10 @@ def whole_run_cases(rng, n, modes, workdir, oc, label="whole-run"):
             oc.count("%s: %s / %s" % (label, P.tool, mode))
         else:
             oc.count("%s: not replayed (%s)" % (label, res["rc"][:40]))
+            if res["rc"].startswith("exception"):
+                # the model of the run is total: a correction that aborts is a disagreement in itself
+                oc.x_disagreements.append({"request": "eccrun (%s / %s) %s" % (P.tool, mode, P.describe()), "model": "the run completes",
+                                           "impl": res["rc"][:300], "tree": {k: v.hex()[:200] for k, v in dmg.items()}})
     return lines, impl
 
 
